@@ -1,7 +1,7 @@
 SPECIFICATION Spec
-CONSTANT AlphaSel = "A"
+CONSTANT AlphaSel = "B"
 CONSTANT StepBound = 60
-CONSTANT MaxToks = 4
+CONSTANT MaxToks = 3
 INVARIANT StatusOK
 INVARIANT BalancedAtEnd
 INVARIANT TopLevelBalanced
